@@ -69,7 +69,7 @@ type c11Interrupt struct {
 }
 
 type c11Case struct {
-	Kind      string        `json:"kind"` // graph | misuse | resume | eager
+	Kind      string        `json:"kind"` // graph | misuse | resume | eager | paths
 	G         c11Graph      `json:"g"`
 	Ctrs      int           `json:"ctrs"`
 	Paradigm  string        `json:"paradigm"` // invoke | stream
@@ -80,6 +80,9 @@ type c11Case struct {
 	Mods      []int         `json:"mods,omitempty"`    // resume/eager family: per resume, 0 = without a state modifier, D = with
 	Wrapped   bool          `json:"wrapped,omitempty"` // eager family: the Workflow is a graph node of a stateless parent
 	IntKind   string        `json:"intKind,omitempty"` // eager family: before | after | rerun
+	// graph family: representation of the state.  "" = *struct; the others are NON-pointer types whose
+	// values share storage: mapint = map[string]int, mapany = map[string]any, box = struct value holding a slice
+	StateType string `json:"stateType,omitempty"`
 }
 
 // ---------- observations (child → parent) ----------
@@ -354,6 +357,11 @@ func c11Gen(r *vh.Rand, quick bool) *c11Case {
 			c.Paradigm = "invoke"
 		}
 	}
+	// the state need not be a pointer: maps and struct values holding slices are shared by all the
+	// handlers of a run just the same (no checkpoint here: these types do not go through a store)
+	if c.Interrupt == nil && c.G.Stateful && r.Chance(45) {
+		c.StateType = []string{"mapint", "mapany", "box"}[r.Intn(3)]
+	}
 	return c
 }
 
@@ -518,6 +526,9 @@ func c11Shape(c *c11Case) string {
 			it += "m"
 		}
 	}
+	if c.StateType != "" {
+		it += "/" + c.StateType
+	}
 	return fmt.Sprintf("%s/n%d/%s/r%d/%s", modes, len(l.Nodes), c.Paradigm, c.Runs, it)
 }
 
@@ -528,6 +539,9 @@ func c11Sig(c *c11Case, what string) string {
 	}
 	if len(c11LayoutOf(&c.G).Graphs) > 1 {
 		extra += ":nested"
+	}
+	if c.StateType != "" {
+		extra += ":state=" + c.StateType
 	}
 	return "C11:" + what + ":mode=" + c.G.Mode + extra
 }
@@ -594,6 +608,14 @@ func c11Compare(ctx *vh.Ctx, c *c11Case, o *c11CaseObs) error {
 		return nil
 	}
 	l := c11LayoutOf(&c.G)
+	// ---- mutual exclusion, observed directly (non-pointer state types): no state operation may
+	// start while another one is inside its user code on the same state object ----
+	for ri := range o.Runs {
+		if n := o.Runs[ri].Overlaps; n > 0 {
+			dis("mutual-exclusion", fmt.Sprintf("run %d: %d state operation(s) (pre-handler / post-handler / ProcessState callback) started while another one was inside its user code on the SAME state object (state type %s: not a pointer, but its values share storage); the model has one mutex per state object, whatever its type", ri, n, c.StateType), 0, map[string]any{"overlaps": n, "class": o.Runs[ri].Class})
+			return nil
+		}
+	}
 	// ---- allocation: which state object does each graph of each run see ----
 	raw, err := ctx.Oracle.Ask("C11", map[string]any{"k": "alloc", "tree": c11TreeJSON(&c.G), "runs": len(o.Runs)})
 	if err != nil {
@@ -1009,6 +1031,11 @@ func c11Compare(ctx *vh.Ctx, c *c11Case, o *c11CaseObs) error {
 func c11Account(ctx *vh.Ctx, c *c11Case) {
 	l := c11LayoutOf(&c.G)
 	ctx.Res.Dist("mode=" + c.G.Mode)
+	st := c.StateType
+	if st == "" {
+		st = "ptr"
+	}
+	ctx.Res.Dist("state-type=" + st)
 	ctx.Res.Dist("paradigm=" + c.Paradigm)
 	ctx.Res.Dist(fmt.Sprintf("runs=%d", c.Runs))
 	ctx.Res.Dist(fmt.Sprintf("graphs=%d", len(l.Graphs)))
@@ -1080,7 +1107,9 @@ func c11Batch(ctx *vh.Ctx, cases []*c11Case, tag string) error {
 			}
 			continue
 		}
-		if c.Kind == "resume" || c.Kind == "eager" {
+		if c.Kind == "paths" {
+			c11PathsAccount(ctx, c)
+		} else if c.Kind == "resume" || c.Kind == "eager" {
 			c11ResumeAccount(ctx, c)
 		} else {
 			c11Account(ctx, c)
@@ -1108,6 +1137,8 @@ func c11Batch(ctx *vh.Ctx, cases []*c11Case, tag string) error {
 			err = c11ResumeCompare(ctx, c, o)
 		case "eager":
 			err = c11EagerCompare(ctx, c, o)
+		case "paths":
+			err = c11PathsCompare(ctx, c, o)
 		default:
 			err = c11Compare(ctx, c, o)
 		}
@@ -1135,7 +1166,7 @@ func runC11(ctx *vh.Ctx) error {
 	if in := os.Getenv("VH_C11_CHILD_IN"); in != "" {
 		return c11ChildMain(in, os.Getenv("VH_C11_CHILD_OUT"))
 	}
-	ctx.Res.Rule = "stateful compose graphs (Pregel / DAG / Workflow, 1-2 layers of 2-6 parallel branches of 1-2 nodes closed by join nodes, nested stateful and stateless sub-graphs, plain and stream pre/post handlers, ProcessState increments and stamps in node bodies) run 1-8 times concurrently, optionally interrupted (before/after nodes) and resumed with a StateModifier; resume family: sequential nests of 1-5 graph levels (each with or without own state) interrupted 1-3 times before/after nodes of any level or by InterruptAndRerun through a bytes-only checkpoint store and resumed with and without a StateModifier, Invoke and Stream, compared with the level-by-level resume model and the uninterrupted reference; eager family: stateful Workflows (top-level or nested) whose resume restores 2-4 tasks that run in parallel, one held inside a ProcessState callback by barriers while a successor created after the resume touches the state (overlap detector, N increments give N, race detector); non-trivial = at least two parallel branches and a state object / an interrupt inside a nested level or a single level / every eager case; distinct by (modes+statefulness of all graphs, node count, paradigm, runs, interrupt shape, micro seed class)"
+	ctx.Res.Rule = "stateful compose graphs (Pregel / DAG / Workflow, 1-2 layers of 2-6 parallel branches of 1-2 nodes closed by join nodes, nested stateful and stateless sub-graphs, plain and stream pre/post handlers, ProcessState increments and stamps in node bodies) run 1-8 times concurrently, optionally interrupted (before/after nodes) and resumed with a StateModifier; resume family: sequential nests of 1-5 graph levels (each with or without own state) interrupted 1-3 times before/after nodes of any level or by InterruptAndRerun through a bytes-only checkpoint store and resumed with and without a StateModifier, Invoke and Stream, compared with the level-by-level resume model and the uninterrupted reference; eager family: stateful Workflows (top-level or nested) whose resume restores 2-4 tasks that run in parallel, one held inside a ProcessState callback by barriers while a successor created after the resume touches the state (overlap detector, N increments give N, race detector); paths family: nests up to node-path length 5 (every inner level [head] -> 1-3 sibling sub-graphs in parallel -> join, leaf levels chains with interrupt points, levels with and without own state) in which several sibling graphs interrupt at the same time, resumed with a StateModifier that dispatches on the NodePath it is called with (a different amount per graph level) and records every call: compared with nestLevels/modCalls/resumeNest (one call per restored level that has a state, with that level's own path and state; resumed state = checkpointed state modified for that path); graph family also with NON-pointer state types whose values share storage (map[string]int, map[string]any, struct value holding a slice) under an overlap detector (no state operation may start while another is inside its user code on the same object); non-trivial = at least two parallel branches and a state object / an interrupt inside a nested level or a single level / every eager case; distinct by (modes+statefulness of all graphs, node count, paradigm, runs, interrupt shape, micro seed class)"
 	if !c11IsRaceBuild() {
 		ctx.Res.Note("harness binary built without -race: data races are not observed in this run")
 	} else {
@@ -1150,13 +1181,13 @@ func runC11(ctx *vh.Ctx) error {
 	}
 	quick := !ctx.Thorough()
 	n := ctx.N(140, 1500)
-	if err := c11Batch(ctx, append(c11MisuseCases(), c11WitnessStatelessNested()), "misuse"); err != nil {
+	if err := c11Batch(ctx, append(c11MisuseCases(), c11WitnessStatelessNested(), c11WitnessSiblingPaths()), "misuse"); err != nil {
 		return err
 	}
 	// three families, interleaved chunk by chunk so that a budget cut-off starves none of them:
 	// sequential nests interrupted at any level (resume), eager Workflows resuming several
 	// restored tasks in parallel (eager), parallel stateful graphs (graph)
-	nChain, nEager := ctx.N(150, 900), ctx.N(54, 300)
+	nChain, nEager, nPaths := ctx.N(150, 900), ctx.N(54, 300), ctx.N(120, 800)
 	fams := []struct {
 		name     string
 		n, chunk int
@@ -1165,6 +1196,7 @@ func runC11(ctx *vh.Ctx) error {
 	}{
 		{"chain", nChain, 50, func() *c11Case { return c11GenChain(ctx.Rng, quick) }, 0},
 		{"eager", nEager, 18, func() *c11Case { return c11GenEager(ctx.Rng, quick) }, 0},
+		{"paths", nPaths, 40, func() *c11Case { return c11GenPaths(ctx.Rng, quick) }, 0},
 		{"graph", n, 35, func() *c11Case { return c11Gen(ctx.Rng, quick) }, 0},
 	}
 	for more := true; more && ctx.TimeLeft(); {
